@@ -6,6 +6,7 @@ import (
 	"go/token"
 	"go/types"
 	"math/bits"
+	"strings"
 
 	"mpcverif/internal/dispatch"
 	"mpcverif/internal/load"
@@ -45,6 +46,7 @@ func C07hamming(p *load.Program, run *report.Run) {
 		return
 	}
 	bad, und := "", ""
+	split := false
 	widths := 0
 	for n := 1; n <= 130 && bad == "" && und == ""; n++ {
 		widths++
@@ -55,6 +57,9 @@ func C07hamming(p *load.Program, run *report.Run) {
 		ev.env[params[2]] = hvec{rlen, 0, false}
 		ev.resultObj = params[2]
 		ev.block(fd.Body.List)
+		if ev.targetSplit {
+			split = true
+		}
 		switch {
 		case ev.fail != "":
 			und = fmt.Sprintf("width %d: %s", n, ev.fail)
@@ -74,7 +79,11 @@ func C07hamming(p *load.Program, run *report.Run) {
 	case bad != "":
 		run.Violate("hamming-tree-no-truncation", key, p.Rel(fd.Pos()), bad, nil)
 	default:
-		run.OK("hamming-tree-no-truncation", key, p.Rel(fd.Pos()), "widths 1..130")
+		if split {
+			run.OK("hamming-tree-no-truncation", key, p.Rel(fd.Pos()), "widths 1..130 on the default target's adder tree; the construction chosen for another target is not an adder tree and is not decided by this rule")
+		} else {
+			run.OK("hamming-tree-no-truncation", key, p.Rel(fd.Pos()), "widths 1..130")
+		}
 	}
 	run.Floor("hamming-widths", 130)
 }
@@ -95,8 +104,10 @@ type hamEval struct {
 	trunc     string
 	final     int64
 	delivered bool
-	done      bool
-	steps     int
+	// targetSplit: the function chooses another construction for another compilation target
+	targetSplit bool
+	done        bool
+	steps       int
 }
 
 func (e *hamEval) bad(f string, a ...any) any {
@@ -218,6 +229,19 @@ func (e *hamEval) stmt(st ast.Stmt) {
 				}
 				return
 			}
+		}
+		// a path chosen by the compilation target: this rule follows the adder tree of the default (Yao) target;
+		// a popcount built another way for another target is not an adder tree and is not decided here
+		if be, ok := s.Cond.(*ast.BinaryExpr); ok && (be.Op == token.EQL || be.Op == token.NEQ) && (strings.Contains(types.ExprString(be.X), "Params.Target") || strings.Contains(types.ExprString(be.Y), "Params.Target")) {
+			e.targetSplit = true
+			if be.Op == token.NEQ {
+				e.block(s.Body.List)
+			} else if s.Else != nil {
+				if b, ok := s.Else.(*ast.BlockStmt); ok {
+					e.block(b.List)
+				}
+			}
+			return
 		}
 		c, ok := e.expr(s.Cond).(bool)
 		if !ok {
